@@ -859,30 +859,49 @@ Proof.
   apply wf_dupdate; [|exact W]. eapply all_entries_wf; [|exact E]. apply wf_arg_items. exact Wa.
 Qed.
 
+Lemma wf_update_partial l d : Forall wf_item l -> wf_dict d -> wf_dict (update_partial d l).
+Proof.
+  revert d; induction l as [|it l IH]; intros d HF W; cbn; [assumption|].
+  inversion HF; subst. destruct it as [e|q]; [|assumption]. apply IH; [assumption|]. apply wf_dset; assumption.
+Qed.
+Lemma wf_add_absent_partial l d : Forall wf_item l -> wf_dict d -> wf_dict (add_absent_partial d l).
+Proof.
+  revert d; induction l as [|it l IH]; intros d HF W; cbn; [assumption|].
+  inversion HF; subst. destruct (dhas (key_of it) d); [apply IH; assumption|].
+  destruct it as [e|q]; [|assumption]. apply IH; [assumption|]. apply wf_dset; assumption.
+Qed.
+Lemma wf_failed_update_state s u a : wf s -> wf_arg a -> wf (failed_update_state s u a).
+Proof.
+  intros W Wa. pose proof (wf_arg_items a Wa) as Wi. unfold failed_update_state.
+  destruct u as [|[[?|?|]|[?|?|]|]]; try exact W;
+    try (apply wf_update_partial; assumption).
+  destruct (mut s); [|exact W]. destruct a; try exact W; apply wf_add_absent_partial; assumption.
+Qed.
+
 Theorem ops_preserve_wf_proof :
   (forall m l, wf (mk_cset m l))
-  /\ forall s o, wf s -> wf (snd (fst (step s o))).
+  /\ forall s o, wf s -> wf (snd (step s o)).
 Proof.
   split.
   - intros m l. exact (wf_mk_arg (RCs m l)).
   - intros s o W.
-    assert (R : forall (r : res cset) stop, (forall s', r = Ok s' -> wf s') ->
-                wf (snd (fst (match r with Ok s' => (VNone, s', false) | Er k => (enc_err k, s, stop) end)))).
-    { intros [s'|k] stop H; cbn; [apply H; reflexivity|exact W]. }
+    assert (R : forall (r : res cset) failed, wf failed -> (forall s', r = Ok s' -> wf s') ->
+                wf (snd (match r with Ok s' => (VNone, s') | Er k => (enc_err k, failed) end))).
+    { intros [s'|k] failed Wf H; cbn; [apply H; reflexivity|exact Wf]. }
     destruct o; cbn [step]; try exact W.
-    + apply R. unfold add. destruct (mut s); [|discriminate]. intros s' [= <-].
+    + apply R; [exact W|]. unfold add. destruct (mut s); [|discriminate]. intros s' [= <-].
       apply wf_dset; [|exact W]. destruct r as [[p k] t]. apply wf_mk_entry.
-    + apply R. unfold remove. destruct (mut s); cbn; [|discriminate]. destruct (dhas _ _); [|discriminate].
+    + apply R; [exact W|]. unfold remove. destruct (mut s); cbn; [|discriminate]. destruct (dhas _ _); [|discriminate].
       intros s' [= <-]. apply wf_filter. exact W.
     + apply wf_filter. exact W.
-    + apply R. unfold clear. destruct (mut s); [|discriminate]. intros s' [= <-]. apply wf_nil.
-    + pose proof (wf_mk_arg a) as Wa. apply R. intros s' H.
+    + apply R; [exact W|]. unfold clear. destruct (mut s); [|discriminate]. intros s' [= <-]. apply wf_nil.
+    + pose proof (wf_mk_arg a) as Wa. apply R; [exact W|]. intros s' H.
       destruct b as [|[[?|?|]|[?|?|]|]]; cbn in H;
         first [ injection H as <-; apply wf_difference; exact W
               | eapply wf_intersection; eassumption
               | eapply wf_union; eassumption
               | eapply wf_symdiff; eassumption ].
-    + pose proof (wf_mk_arg a) as Wa. apply R. intros s' H.
+    + pose proof (wf_mk_arg a) as Wa. apply R; [apply wf_failed_update_state; assumption|]. intros s' H.
       destruct u as [|[[?|?|]|[?|?|]|]]; cbn in H;
         first [ eapply wf_difference_update; eassumption
               | eapply wf_intersection_update; eassumption
